@@ -90,9 +90,38 @@ def check(run):
                 okm = derives(rs, 'mask')
                 run.check(okm, 'R-EIN', 'PSD: mask multiplies the plain observation factor', s.loc, '', 'the weighted factor is not mask * observation', construct=f'R-EIN::{Q}::mask-factor')
     # mask normalisation
-    norm_ev = [e for e in g.events if e.kind == 'inplace' and e.term.op == 'iop' and e.term.args[0] == 'Div' and derives(e.term.args[1], 'mask')]
-    if not norm_ev:
+    def divisions(pred):
+        """all divisions (in place or not) of the function whose numerator satisfies pred: (term, node)"""
+        out, seen = [], set()
+        for r in [g.ret] + [e.term for e in g.events if e.term is not None]:
+            for t in walk_terms(r, seen):
+                if t.op in ('binop', 'iop') and t.args[0] == 'Div' and pred(t.args[1]):
+                    out.append(t)
+        return out
+
+    def guarded_by(t, pname):
+        """is the value t computed only under `if <pname>:` (statement guard of an in-place update, or the then-branch of a gamma)?"""
+        for e in g.events:
+            if e.term is t:
+                return any(strip_views(c).op == 'param' and strip_views(c).args[0] == pname and pol for c, pol in e.guards)
+        seen = set()
+        for r in [g.ret] + [e.term for e in g.events if e.term is not None]:
+            for x in walk_terms(r, seen):
+                if x.op == 'gamma' and strip_views(x.args[0]).op == 'param' and strip_views(x.args[0]).args[0] == pname and x.args[1] is t and x.args[2] is not t:
+                    return True
+        return False
+
+    norm_terms = [t for t in divisions(lambda n: derives(n, 'mask') and not derives(n, 'observation')) if is_call_to(t.args[2], 'numpy.maximum', 'numpy.sum')]
+    if not norm_terms:
         raise AnalysisError('get_power_spectral_density_matrix: mask normalisation not found')
+
+    class _E:
+        pass
+    norm_ev = []
+    for t in norm_terms:
+        e = _E()
+        e.term, e.node = t, t.node
+        norm_ev.append(e)
     for e in norm_ev:
         den = e.term.args[2]
         ok = False
@@ -108,14 +137,14 @@ def check(run):
                 ok = ax is not None and axis_param(ax) == 'time_dim' and kd is True and flv is not NOVAL and isinstance(flv, (int, float)) and flv > 0 \
                     and call_arg(sm, 0) is e.term.args[1]
         run.check(ok, 'R-AXIS', 'PSD: mask normalised by its floored sum over the time axis', fn.loc(e.node), '', why, construct=f'R-AXIS::{Q}::mask-normalisation')
-        guard_ok = any(strip_views(c).op == 'param' and strip_views(c).args[0] == 'normalize' and pol for c, pol in e.guards)
+        guard_ok = guarded_by(e.term, 'normalize')
         run.check(guard_ok, 'R-AXIS', 'PSD: mask normalisation only under `normalize`', fn.loc(e.node), '', 'the mask is normalised regardless of the normalize option',
                   construct=f'R-AXIS::{Q}::normalize-guard')
     # mask-free branch: divide by the number of frames
-    psd_div = [e for e in g.events if e.kind == 'inplace' and e.term.op == 'iop' and e.term.args[0] == 'Div' and not derives(e.term.args[1], 'mask')]
+    psd_div = [t for t in divisions(lambda n: derives(n, 'observation') and not derives(n, 'mask'))]
     okf = False
-    for e in psd_div:
-        d = strip_views(e.term.args[2])
+    for t_ in psd_div:
+        d = strip_views(t_.args[2])
         if d.op == 'sub' and const_val(d.args[1]) == -1 and d.args[0].op == 'attr' and d.args[0].args[1] == 'shape' and derives(d.args[0].args[0], 'observation'):
             okf = True
     run.check(okf, 'R-AXIS', 'PSD: mask-free estimate divides by the number of frames', fn.loc(), '', 'psd /= observation.shape[-1] (frames of the transposed observation) not found',
